@@ -218,4 +218,30 @@ mod verif_replay_interp {
         assert_eq!(run(&if_doc("nosuchvariable == 1"), &[]), fin("pass"));
         assert_eq!(run(&if_doc("1 +"), &[]), fin("pass"));
     }
+
+    const LATE: &str = r###"<scxml xmlns="http://www.w3.org/2005/07/scxml" initial="A" version="1.0" datamodel="rfsm-expression" binding="BINDING">
+ <state id="A">
+  <datamodel><data id="cnt" expr="0"/></datamodel>
+  <onentry><assign location="cnt" expr="cnt + 1"/></onentry>
+  <transition event="go" target="B"/>
+  <transition event="check" cond="cnt == 2" target="C"/>
+  <transition event="check" target="reinitialised"/>
+ </state>
+ <state id="B"><transition target="A"/></state>
+ <state id="C">
+  <datamodel><data id="c" expr="40"/></datamodel>
+  <onentry><assign location="c" expr="c + 2"/></onentry>
+  <transition cond="(c == 42) &amp; In('C') &amp; (!In('A'))" target="pass"/>
+  <transition target="wrongC"/>
+ </state>
+ <final id="pass"/><final id="reinitialised"/><final id="wrongC"/>
+</scxml>"###;
+
+    /// C09: late-bound data are initialised at the first entry of their state, before its onentry content, and not again
+    /// on re-entry; In() reflects the configuration at the moment of evaluation
+    #[test]
+    fn verif_replay_interp_late_binding_and_in() {
+        assert_eq!(run(&LATE.replace("BINDING", "late"), &["go", "check"]), fin("pass"));
+        assert_eq!(run(&LATE.replace("BINDING", "early"), &["go", "check"]), fin("pass"));
+    }
 }
